@@ -691,8 +691,10 @@ Section NumP.
       eapply vmapn_clean; [|exact Hl|exact H]. intros l0 u0 _ H0. cbv beta in H0.
       repeat (match type of H0 with context [match ?x with _ => _ end] => destruct x end; try discriminate);
         inversion H0; subst; reflexivity.
-    - repeat (match type of H with context [match ?x with _ => _ end] => destruct x end; try discriminate);
-        inversion H; subst; reflexivity.
+    - destruct l as [|? [|? [|? [|d [|? ?]]]]]; try discriminate; try (destruct d; discriminate). destruct d; try discriminate.
+      eapply vmapn_clean; [|exact Hl|exact H]. intros l0 u0 _ H0. cbv beta in H0.
+      repeat (match type of H0 with context [match ?x with _ => _ end] => destruct x end; try discriminate);
+        inversion H0; subst; reflexivity.
     - repeat (match type of H with context [match ?x with _ => _ end] => destruct x end; try discriminate);
         inversion H; subst; reflexivity.
     - destruct l as [|? [|? [|? [|d [|? ?]]]]]; try discriminate; try (destruct d; discriminate). destruct d; try discriminate.
@@ -879,6 +881,7 @@ Section VmappedP.
   Definition dummy_of (k : wlabel) (l : list vtree) : option (akind * tensor A) :=
     match snd k, l with
     | BijReparam, [_; _; Arr kd d] => Some (kd, d)
+    | Where, [_; _; _; Arr kd d] => Some (kd, d)
     | Lambda, [_; _; _; Arr kd d] => Some (kd, d)
     | _, _ => None
     end.
@@ -914,6 +917,16 @@ Section VmappedP.
       destruct (slice_tree Sp T i c) as [c'|]; [|reflexivity].
       cbn [slice_tree]. rewrite Hk. unfold slice_t. rewrite Hs.
       unfold Tree.wapply. rewrite Ek. cbn [tshape]. reflexivity.
+    - destruct l as [|a l]; try discriminate. destruct l as [|b l]; try discriminate. destruct l as [|c l]; try discriminate.
+      destruct l as [|e l]; try discriminate.
+      destruct e as [kd' d'| | | |]; try discriminate. destruct l; try discriminate.
+      inversion Hd; subst kd' d'. rewrite Hs. cbn [vmapn].
+      erewrite mapM_ext_in; [reflexivity|]. intros i _. cbn [mapM].
+      destruct (slice_tree Sp T i a) as [a'|]; [|reflexivity].
+      destruct (slice_tree Sp T i b) as [b'|]; [|reflexivity].
+      destruct (slice_tree Sp T i c) as [c'|]; [|reflexivity].
+      cbn [slice_tree]. rewrite Hk. unfold slice_t. rewrite Hs.
+      unfold Tree.wapply. rewrite Ek. cbn [tshape]. reflexivity.
   Qed.
 End VmappedP.
 
@@ -928,7 +941,7 @@ Definition ex_fn_of (s : nat) : option fid := match s with 0 => Some FAdd1 | _ =
 Definition ex_tree : @vtree Z nat nat :=
   Node 0 [ Arr KFloat (mkT [2] [1; 2]%Z);
            W (1%Z, Where) [Arr KBool (mkT [2] [1; 0]%Z); W (2%Z, NonTrainable) [Arr KFloat (mkT [2] [10; 20]%Z)];
-                           Arr KPyInt (mkT [] [0%Z])];
+                           Arr KPyInt (mkT [] [0%Z]); Arr KInt (mkT [] [0%Z])];
            W (3%Z, Lambda) [Static 0; Node 0 [W (4%Z, NonTrainable) [Arr KInt (mkT [] [5%Z])]]; Node 1 [];
                             Arr KInt (mkT [] [0%Z])];
            Static 7 ].
@@ -936,12 +949,12 @@ Definition ex_unwrapped : @vtree Z nat nat :=
   Node 0 [ Arr KFloat (mkT [2] [1; 2]%Z); Arr KFloat (mkT [2] [10; 0]%Z); Arr KInt (mkT [] [6%Z]); Static 7 ].
 Definition ex_trace : list wlabel := [(2%Z, NonTrainable); (1%Z, Where); (4%Z, NonTrainable); (3%Z, Lambda)].
 Definition ex_params : @vtree Z nat nat :=
-  Node 0 [ Arr KFloat (mkT [2] [1; 2]%Z); W (1%Z, Where) [Hole; Hole; Hole];
+  Node 0 [ Arr KFloat (mkT [2] [1; 2]%Z); W (1%Z, Where) [Hole; Hole; Hole; Hole];
            W (3%Z, Lambda) [Hole; Node 0 [Hole]; Node 1 []; Hole]; Hole ].
 Definition ex_static : @vtree Z nat nat :=
   Node 0 [ Hole;
            W (1%Z, Where) [Arr KBool (mkT [2] [1; 0]%Z); W (2%Z, NonTrainable) [Arr KFloat (mkT [2] [10; 20]%Z)];
-                           Arr KPyInt (mkT [] [0%Z])];
+                           Arr KPyInt (mkT [] [0%Z]); Arr KInt (mkT [] [0%Z])];
            W (3%Z, Lambda) [Static 0; Node 0 [W (4%Z, NonTrainable) [Arr KInt (mkT [] [5%Z])]]; Node 1 [];
                             Arr KInt (mkT [] [0%Z])];
            Static 7 ].
